@@ -8,7 +8,7 @@ import scipy.sparse as sp
 ROUTES = ['dense', 'listlist_dense', 'triples', 'dict', 'list_rows',
           'list_dicts', 'list_sparse', 'csr', 'csc', 'coo', 'lil', 'dok',
           'bsr', 'csr_unsorted', 'csc_unsorted', 'csr_zeros', 'csc_zeros',
-          'coo_zeros', 'coo_dups']
+          'coo_zeros', 'coo_dups', 'empty_list']
 
 
 def _unsort(mat, salt):
@@ -57,6 +57,13 @@ def matrix_arg(route, m, salt=0):
         if len(rr) == 0:
             return None
         return {(int(a), int(b)): float(m[a, b]) for a, b in zip(rr, cc)}, {}
+    if r == 'empty_list':
+        # what a document of a table without any non-zero value carries: an
+        # empty list of entries (the form the JSON and TSV readers hand to
+        # the constructor)
+        if (m != 0).any():
+            return None
+        return [], {}
     if r == 'list_rows':
         return [m[i, :].copy() for i in range(nr)], {}
     if r == 'list_dicts':
